@@ -29,6 +29,10 @@ def main(argv):
     except ImportError as e:
         print("no check for %s: %s" % (pid, e))
         return 2
+    except Exception:  # a broken rule module is analysis-broken, never a verdict (an uncaught error would exit 1)
+        traceback.print_exc()
+        print("ANALYSIS-BROKEN property=%s: the check's modules do not load" % pid)
+        return 2
     try:
         wd = front.prepare()
         from .facts import Facts
